@@ -23,6 +23,11 @@ def validate_decoded(obj):
   if obj != obj or obj in [float("inf"), float("-inf")]:
     raise gfapy.ValueError(
       "{} cannot be represented as a GFA float".format(repr(obj)))
+  try:
+    float(obj)
+  except OverflowError:
+    raise gfapy.ValueError(
+      "{} cannot be represented as a GFA float".format(repr(obj)))
 
 def validate_encoded(string):
   if not re.match(r"^[-+]?[0-9]*\.?[0-9]+([eE][-+]?[0-9]+)?\Z", string):
